@@ -840,6 +840,22 @@ def oracle_C14(lhs, o, t):
         a = o.get("after_raw", o.get("after"))
         if p and p["ok"] and a[2 * p["v"]:] != pre[2 * p["v"]:]:
             return f"bytes after the value's own {p['v']} bytes changed"
+        ops = f[5].split(" ")
+        if ops[0] == "setfield" and tkind(t) == "other":
+            # a field write through the mutable accessors (`C14_setField_frame`): only the bytes of that field — at the offset the C
+            # rule gives it, an oracle independent of the model — may change, and the value reads as the abstract one afterwards
+            if o.get("want") and o["want"] != o.get("res"): return f"setfield returned {o.get('res')}, expected {o['want']}"
+            if p and p["ok"] and o.get("abs") is not None and content_of(o.get("p")) != o.get("abs"): return f"content {content_of(o.get('p'))} after the field write, expected {o.get('abs')}"
+            i, img = int(ops[2]), ops[3]
+            changed = [k for k in range(0, min(len(a), len(pre)), 2) if a[k:k + 2] != pre[k:k + 2]]
+            if o.get("res") == "novariant":
+                if changed: return "a field write addressed at an inactive variant changed the value"
+            elif o.get("res") == "ok" and p and p["ok"]:
+                exp = expected_offsets(t["desc"], p["w"])
+                if exp is not None and i < len(exp):
+                    lo, hi = 2 * exp[i], 2 * exp[i] + len(img)
+                    bad = [k // 2 for k in changed if not (lo <= k < hi)]
+                    if bad: return f"writing field {i} (bytes {exp[i]}..{exp[i] + len(img) // 2}) changed byte(s) {bad[:6]} outside it"
     return None
 
 # ---- IO suites (S R AS AR AP W lines) ---------------------------------------------------------------------
@@ -1178,7 +1194,7 @@ PROPS = {
     "C11": dict(module="FV.Props.C11", theorems=["FV.Props.C11_vec_step_refines", "FV.Props.C11_history", "FV.Props.C11_valid_gives_invariant"], suites=["ops"], proj=proj_C11, oracle=oracle_C11),
     "C12": dict(module="FV.Props.C12Push", theorems=["FV.Props.C12_valid_iff_sequence", "FV.Props.C12_truncate", "FV.Props.C12_pop", "FV.Props.C12_push", "FV.Props.C12_pushed_item_content", "FV.Props.C12_history", "FV.Props.C12_push_accepts_iff", "FV.Props.C12_item_edit", "FV.Props.C12_truncate_noop", "FV.Chain.edit"], suites=["ops"], proj=proj_C12, oracle=oracle_C12, post=post_witness("C12")),
     "C13": dict(module="FV.Props.C13", theorems=["FV.Props.C13_vec_refused_unchanged", "FV.Props.C13_flex_push_refused_unchanged", "FV.Props.C13_flex_push_refused_size", "FV.flexPush_refused_size"], suites=["ops"], proj=proj_C13, oracle=oracle_C13),
-    "C14": dict(module="FV.Props.C14", theorems=["FV.Props.C14_write_frame", "FV.Props.C14_item_edit_frame", "FV.Props.C14_emplace_inside", "FV.Props.C14_assign_frame", "FV.Props.C14_truncate_frame", "FV.Props.C14_field_write_frame", "FV.Props.posList_disjoint"], suites=["emplace", "ops"], proj=proj_C14, oracle=oracle_C14),
+    "C14": dict(module="FV.Props.C14", theorems=["FV.Props.C14_write_frame", "FV.Props.C14_item_edit_frame", "FV.Props.C14_emplace_inside", "FV.Props.C14_assign_frame", "FV.Props.C14_truncate_frame", "FV.Props.C14_field_write_frame", "FV.Props.posList_disjoint", "FV.Props.C14_setField_frame"], suites=["emplace", "ops"], proj=proj_C14, oracle=oracle_C14),
     "C07": dict(module="FV.Props.C07", theorems=["FV.Props.C07_sender_delivers", "FV.Props.C07_receiver_delivers", "FV.Props.C07_receiver_delivers_anywhere", "FV.Props.C07_emplaced_is_deliverable", "FV.Props.C07_retain_returns_same", "FV.Ty.addrIndep"], suites=["io"], proj=proj_C07, oracle=oracle_io_basic, post=post_io("C07")),
     "C08": dict(module="FV.Props.C08", theorems=["FV.Props.C08_sender_refines_blocking", "FV.Props.C08_receiver_refines_blocking", "FV.Props.C08_pipe_fifo", "FV.Props.C08_pipe_fair_delivers"], suites=["aio"], proj=proj_C08, oracle=oracle_io_basic, post=post_io("C08")),
     "C09": dict(module="FV.Props.C09", theorems=["FV.Props.C09_send_fault", "FV.Props.C09_session_sink_shape", "FV.Props.C09_read_error_keeps_bytes", "FV.Props.C09_receiver_retries_deliver", "FV.Props.C09_send_error_is_first_failure", "FV.Props.C09_send_kind_blind", "FV.Props.C09_async_poll_kind_blind", "FV.Props.C09_recv_error_is_pipes_error", "FV.Props.C09_recv_kind_blind"], suites=["io", "aio"], proj=proj_C09, oracle=oracle_io_basic, post=post_io("C09")),
